@@ -47,7 +47,7 @@ func genC12(t *rapid.T) c12Case {
 	for i, n := 0, rapid.IntRange(1, 4).Draw(t, "nusers"); i < n; i++ {
 		aux, _ := vlib.GenAux(t, "aux", false)
 		c.Users = append(c.Users, seedUser{Name: names[i], Admin: rapid.Bool().Draw(t, "admin"),
-			PW:  rapid.SampledFrom([]string{"a", "password", "bob2020", "Tr0ub4dor&3", "correct horse battery staple 9x!", "zq9#Lm2$vX7@pR4", "pässwörd-ünïcode-lang-genug", "with:colon and space",
+			PW: rapid.SampledFrom([]string{"a", "password", "bob2020", "Tr0ub4dor&3", "correct horse battery staple 9x!", "zq9#Lm2$vX7@pR4", "pässwörd-ünïcode-lang-genug", "with:colon and space",
 				"latin1-p\xe4ssw\xf6rd-lang-genug-9!", "raw\xff\xfebytes\x80\x81 zq9#Lm2$vX7"}).Draw(t, "pw"),
 			PID: c.Cfg.Sets[rapid.IntRange(0, len(c.Cfg.Sets)-1).Draw(t, "pid")].ID, Aux: aux})
 	}
